@@ -15,11 +15,13 @@ ENGINES = {
     'caches': dict(quick=1500, thorough=40000),
     'validators': dict(quick=20000, thorough=400000),
     'aead': dict(quick=150, thorough=3000),
+    'config': dict(quick=3000, thorough=80000),
 }
 
 PROPS = {
     'C02': dict(spec_mods=['SsoSpec.C02'], engines=['aead']),
     'C11': dict(spec_mods=['SsoSpec.C11'], engines=['validators']),
+    'C14': dict(spec_mods=['SsoSpec.C14'], engines=['config']),
     'C15': dict(spec_mods=['SsoSpec.C15'], engines=['breaker']),
     'C16': dict(spec_mods=['SsoSpec.C16'], engines=['sf', 'sfwrap']),
     'C17': dict(spec_mods=['SsoSpec.C17'], engines=['caches']),
@@ -28,6 +30,9 @@ PROPS = {
 # model branches every run must reach (engine:branch); a branch the implementation can no longer reach
 # means it no longer behaves like the model on the prelude's representative.
 FLOORS = {
+    'C14': ['config:loaded', 'config:loaded/skip-regex', 'config:error/missingService', 'config:error/missingFrom', 'config:error/missingTo',
+            'config:error/badFromUrl', 'config:error/badFromRegex', 'config:error/unknownType', 'config:error/badSkipRegex',
+            'config:error/badHmac', 'config:error/noAllowRule'],
     'C02': ['aead:genuine/accepted', 'aead:genuine-again/accepted', 'aead:other-key/rejected', 'aead:bitflip/rejected', 'aead:truncate-string/rejected',
             'aead:truncate-bytes/rejected', 'aead:extend/rejected', 'aead:newline/rejected', 'aead:cr/rejected', 'aead:trailing-bits/rejected',
             'aead:swap-nonce-body/rejected', 'aead:nonce-only/rejected', 'aead:body-from-other-key/rejected', 'aead:nonce-from-other-seal/rejected',
@@ -61,6 +66,10 @@ COMMON_TB = [
 ]
 
 TB = {
+    'C14': ["yaml.v2 parsing is not modelled: the harness renders a generated structured document to YAML for the real loader and ships the structured form to the model",
+            "mergo v0.3.7 is modelled for the struct shapes it is applied to (override / fill; pointer, slice, map, scalar rules) and tied differentially; url.Parse, regexp.Compile and hmacauth's digest table are oracles (theorems hold for every behaviour)",
+            "template substitution is applied per string field in the model (generated values contain no braces, so map-iteration order does not matter)",
+            "modelled: proxy_config.go loadServiceConfigs and helpers, options.go SetUpstreamConfigs' default options and allow-rule check; not modelled: go-micro/mapstructure environment decoding"],
     'C02': ["cryptographic assumptions, stated as the fields of the `AEAD` structure every theorem is parameterised by (satisfiable: AEAD.toy): AES-CMAC-SIV with 16-byte nonces is correct, authentic (INT-CTXT: only genuine ciphertexts open, only under their key and nonce) and key-separating; confidentiality ('the sealed form does not reveal the plaintext') is not expressible in an executable model and is assumed outright; crypto/rand nonces do not repeat",
             "gzip and encoding/json are an abstract lossless `Codec` (dec (enc v) = some v); json's leniency on *decoding* is irrelevant because only genuine plaintexts reach it (authenticity)",
             "Go's encoding/base64 is modelled (Prim/Base64.lean) and compared byte for byte with the library on every variant string",
@@ -81,6 +90,7 @@ TB = {
 }
 
 RULES = {
+    'C14': "documents of 1-3 services x default/prod/staging blocks (present, absent, null) x optional options (each field independently set; maps with overlapping keys and empty values; bad regex; per-upstream provider_slug) x 0-2 extra routes x route types (simple, rewrite, unknown) x from/to incl. template variables, unparsable hosts, missing; cluster prod/staging/default; deployment defaults each on/off; HMAC key specs good/bad; fixed prelude with one document per error kind; non-trivial = loading succeeded with at least one upstream; distinct = distinct case hash",
     'C02': "per case one value (session or flow record; empty, Unicode, NUL, 300-byte fields, up to 40 groups) sealed twice under key 1 and once under key 2; variants of the sealed string: every single-bit flip and every truncation (first 3 cases; 48 random flips and sampled truncations otherwise), byte truncations/prefix drops, extensions/prependings by alphabet chars, '=', CR, LF, space, NUL, std alphabet, padded forms, CR/LF insertion at 5 positions and between all chars, every trailing-bit variant of the last character, nonce/body swap, nonce only, body only, nonce from the other seal, body from the other key, empty, random bytes/strings; non-trivial = always (each case opens the genuine value); distinct = distinct case hash",
     'C11': "validators: rule lists of 0-3 entries (addresses or domains, '*' alone and among others) x e-mails from a grammar (case variants, Unicode with special case mappings, several '@', empty local part, no '@', look-alike and sub-domains, trailing '*'), one third constructed to hit; non-trivial = non-empty rules and non-empty e-mail; distinct = distinct case hash",
     'C17': "three case kinds, one third each: gc = 4-20 questions/purges over 2-3 users x permuted subsets of 3-4 group names with directory answers/errors; fc = 5-30 lockstep events (Update begin/end with ok/notFound/err, RefreshLoop, loop fill end, Stop, Get) over 1-3 groups and 4 caller threads; mem = random cache contents x asked subsets x directory answers for Google and Cognito; fixed prelude covers every branch; non-trivial = a cache hit (gc), a fill began (fc), a partly cached question (mem); distinct = distinct case hash",
@@ -89,6 +99,7 @@ RULES = {
 }
 
 ASSUME = {
+    'C14': ["YAML parsing yields the structured document the generator rendered", "url.Parse / regexp.Compile arbitrary (oracles)"],
     'C02': ["AES-CMAC-SIV is INT-CTXT and key-separating; confidentiality assumed", "crypto/rand nonces are fresh", "gzip/json round trip on sealed values"],
     'C11': ["strings.ToLower may be any function (theorems quantify over it)", "redeemCode rejects an empty e-mail before validators run (modelled; checked in proxyflow)"],
     'C17': ["mutex atomicity; syncmap linearizability", "sort.Strings is a sorted permutation (harness ships the sorted list)", "timer-driven events are nondeterministic events of the model, real-time bounds not claimed"],
